@@ -1,12 +1,13 @@
 /-
-  BITCOUNT, iterator form:
-  * `bitcountFixed_eq_spec`: in every well-formed store (`WF`, i.e. every reachable one) the repaired iterator-based
-    BITCOUNT (`bitcountFixed`: stops behind the segment of `end`, clamps its cut points) answers the prescribed
-    `bitcountSpec` — hence, with `bitcountSpec_eq_enum`, the enumeration of GETBIT;
-  * `bitcount_ok_eq_fixed`: whenever the code's BITCOUNT (`bitcount`) answers a NUMBER and no stored segment lies
-    behind the segment of `end`, that number is the prescribed one. (Otherwise it also counts every stored segment behind
-    `end`, and it panics when the first wanted byte of the start segment lies behind that segment's stored length:
-    witnesses in Props/C09Bit.lean.)
+  BITCOUNT, iterator form — `Z.BitExec.bitcount` models `BitCountV2` as it is after fix d794a70 (the loop breaks behind the
+  segment of `end`, an inverted cut is clamped):
+  * `bitcountFixed` / `segFixed`: the same computation in FILTER form (every stored segment of the iterator range whose index
+    is not behind `end`, both cut points clamped to the stored length) — a proof device, not a model of any code;
+  * `bitcountFixed_eq_spec`: in every well-formed store (`WF`, i.e. every reachable one) the filter form answers the prescribed
+    `bitcountSpec`;
+  * `segCount_eq_segFixed` (every segment, no hypothesis) and `bitcount_eq_fixed` (well-formed stores: the iterator range is
+    ordered by the segment index, so "break at the first segment behind `end`" = "skip every segment behind `end`");
+  * hence `bitcount_eq_spec`: the code's BITCOUNT = the prescribed one = (with `bitcountSpec_eq_enum`) the enumeration of GETBIT.
 -/
 import ZanVerif.Data.BitInv
 import ZanVerif.Data.HeaderLemmas
@@ -15,6 +16,24 @@ namespace Z.BitExec
 open Z.Ref (get put del scan Sorted mem_scan)
 open Z.Coll
 open Z.Codec Z.Header
+
+/-- one iteration in filter form: both cut points clamped to the stored length, an empty cut counts nothing -/
+def segFixed (s e : Int) (idx : Int) (v : Bytes) : Nat :=
+  let bs := if idx = Gen.bitCountStartI s * Gen.cBitmapSegBytes then min (Gen.bitCountByteStart s).toNat v.length else 0
+  let be := if idx = Gen.bitCountStopI e * Gen.cBitmapSegBytes then min (Gen.bitCountByteEnd e).toNat v.length else v.length
+  popcount ((v.drop bs).take (be - bs))
+
+/-- `BitCountV2` in filter form -/
+def bitcountFixed (pol : Pol) (m : List KV) (now : Int) (table rk : Bytes) (start stop : Int) : BOut Int :=
+  match bmeta pol m now table rk with
+  | .err e => .err e
+  | .mk h _ size ok =>
+    if !ok then bitCountOld pol m now table rk start stop else
+    let (s, e) := Gen.getRange start stop size
+    if s > e then .ok 0 else
+    let vk := vkey pol rk h.ver
+    .ok ((((scan m (segK table vk (Gen.bitCountStartI s * Gen.cBitmapSegBytes)) (stopK table vk)).filter
+      (fun p => idxOf p.1 ≤ Gen.bitCountStopI e * Gen.cBitmapSegBytes)).map (fun p => segFixed s e (idxOf p.1) p.2)).sum : Nat)
 
 /-! ### ranges -/
 
@@ -209,5 +228,107 @@ theorem bitcountFixed_eq_spec {m : List KV} (W : WF m) (pol : Pol) (now : Int) (
     · have : ok = false := by cases ok <;> simp_all
       subst this
       rfl
+
+/-! ### the code's loop (break, clamp) = the filter form -/
+
+theorem cutOf_end_le (s e idx : Int) (v : Bytes) : (cutOf s e idx v).2 ≤ v.length := by
+  unfold cutOf; simp only; split <;> omega
+
+theorem clamp_slice (v : Bytes) (X E : Nat) (hE : E ≤ v.length) :
+    popcount ((v.drop (if decide ((X : Int) > (E : Int)) = true then E else X)).take (E - (if decide ((X : Int) > (E : Int)) = true then E else X))) =
+      popcount ((v.drop (min X v.length)).take (E - min X v.length)) := by
+  by_cases h : (X : Int) > (E : Int)
+  · rw [if_pos (by simpa using h), show E - E = 0 by omega, show E - min X v.length = 0 by omega]
+    simp
+  · rw [if_neg (by simpa using h), show min X v.length = X by omega]
+
+theorem segFixed_cut (s e idx : Int) (v : Bytes) :
+    segFixed s e idx v = popcount ((v.drop (min (cutOf s e idx v).1 v.length)).take ((cutOf s e idx v).2 - min (cutOf s e idx v).1 v.length)) := by
+  unfold segFixed cutOf
+  simp only
+  by_cases hc : idx = Gen.bitCountStartI s * Gen.cBitmapSegBytes
+  · simp only [if_pos hc]
+  · simp only [if_neg hc, Nat.zero_min]
+
+/-- the clamp of the code (`if byteStart > byteEnd { byteStart = byteEnd }`) counts what the filter form counts -/
+theorem segCount_eq_segFixed (s e idx : Int) (v : Bytes) : segCount s e idx v = segFixed s e idx v := by
+  rw [segFixed_cut]
+  unfold segCount Gen.bitCountInverted
+  exact clamp_slice v _ _ (cutOf_end_le s e idx v)
+
+theorem takeWhile_eq_filter {α : Type} (R : α → α → Prop) (P : α → Bool) :
+    ∀ (L : List α), L.Pairwise R → (∀ a ∈ L, ∀ b ∈ L, R a b → P b = true → P a = true) → L.takeWhile P = L.filter P
+  | [], _, _ => rfl
+  | a :: t, hp, hm => by
+    have hpt := (List.pairwise_cons.mp hp)
+    by_cases ha : P a = true
+    · rw [List.takeWhile_cons_of_pos ha, List.filter_cons_of_pos ha,
+        takeWhile_eq_filter R P t hpt.2 (fun x hx y hy => hm x (List.mem_cons_of_mem _ hx) y (List.mem_cons_of_mem _ hy))]
+    · rw [List.takeWhile_cons_of_neg ha, List.filter_cons_of_neg ha]
+      symm
+      apply List.filter_eq_nil_iff.mpr
+      intro b hb hPb
+      exact ha (hm a List.mem_cons_self b (List.mem_cons_of_mem _ hb) (hpt.1 b hb) hPb)
+
+/-- in a well-formed store the iterator range is ordered by the segment index: breaking at the first segment behind `end` =
+    skipping every segment behind `end`; **the code's BITCOUNT = the filter form** -/
+theorem bitcount_eq_fixed {m : List KV} (W : WF m) (pol : Pol) (now : Int) (table rk : Bytes) (ht : table.length < 65536)
+    (start stop : Int) : bitcount pol m now table rk start stop = bitcountFixed pol m now table rk start stop := by
+  unfold bitcount bitcountFixed
+  cases hm : bmeta pol m now table rk with
+  | err e => rfl
+  | mk h ex size ok =>
+    simp only
+    by_cases hok : ok = true
+    · subst hok
+      simp only [Bool.not_true, Bool.false_eq_true, if_false]
+      have hb := getRange_bounds start stop size
+      have hsz := bmeta_size_lt pol m now table rk h ex size true hm
+      generalize hr : Gen.getRange start stop size = r at hb
+      obtain ⟨s, e⟩ := r
+      simp only at hb ⊢
+      by_cases hgt : s > e
+      · rw [if_pos hgt, if_pos hgt]
+      · rw [if_neg hgt, if_neg hgt]
+        obtain ⟨hs0, hes⟩ := hb (by omega)
+        obtain ⟨sN, rfl⟩ := Int.eq_ofNat_of_zero_le hs0
+        congr 2
+        unfold countLoop
+        have hP : (fun p : KV => !Gen.bitCountBehind (idxOf p.1) (Gen.bitCountStopI e)) =
+            (fun p : KV => decide (idxOf p.1 ≤ Gen.bitCountStopI e * Gen.cBitmapSegBytes)) := by
+          funext p; unfold Gen.bitCountBehind
+          by_cases hq : idxOf p.1 ≤ Gen.bitCountStopI e * Gen.cBitmapSegBytes
+          · rw [decide_eq_true hq, decide_eq_false (by omega)]; rfl
+          · rw [decide_eq_false hq, decide_eq_true (by omega)]; rfl
+        rw [hP]
+        generalize hL : scan m (segK table (vkey pol rk h.ver) (Gen.bitCountStartI (sN : Int) * Gen.cBitmapSegBytes)) (stopK table (vkey pol rk h.ver)) = L
+        have hmem : ∀ p ∈ L, ∃ j : Nat, j < 9007199254740992 ∧ p.1 = segK table (vkey pol rk h.ver) (Gen.cBitmapSegBytes * (j : Int)) := by
+          intro p hp
+          rw [← hL, startI_nat, Int.mul_comm] at hp
+          obtain ⟨j, _, hj, hk, _⟩ := scan_seg W table _ ht (sN / 1024) (by omega) p hp
+          exact ⟨j, hj, hk⟩
+        have hpw : L.Pairwise (fun p q => p.1 < q.1) := by
+          rw [← hL]; exact Z.Coll.sorted_pairwise (Z.Coll.scan_sorted W.sorted _ _)
+        rw [takeWhile_eq_filter (fun p q : KV => p.1 < q.1) _ L hpw]
+        · congr 1
+          apply List.map_congr_left
+          intro p _
+          exact segCount_eq_segFixed _ _ _ _
+        · intro a ha b hb hab hPb
+          obtain ⟨ja, hja, hka⟩ := hmem a ha
+          obtain ⟨jb, hjb, hkb⟩ := hmem b hb
+          simp only [decide_eq_true_eq] at hPb ⊢
+          rw [hka, hkb, segK_lt _ _ (inI64_seg ja hja) (inI64_seg jb hjb)] at hab
+          rw [hka, idxOf_segK _ _ (inI64_seg ja hja)]
+          rw [hkb, idxOf_segK _ _ (inI64_seg jb hjb)] at hPb
+          omega
+    · have : ok = false := by cases ok <;> simp_all
+      subst this
+      rfl
+
+/-- **the code's BITCOUNT is the prescribed one** in every well-formed store -/
+theorem bitcount_eq_spec {m : List KV} (W : WF m) (pol : Pol) (now : Int) (table rk : Bytes) (ht : table.length < 65536)
+    (start stop : Int) : bitcount pol m now table rk start stop = bitcountSpec pol m now table rk start stop := by
+  rw [bitcount_eq_fixed W pol now table rk ht start stop, bitcountFixed_eq_spec W pol now table rk ht start stop]
 
 end Z.BitExec
